@@ -1,0 +1,14 @@
+//go:build verif
+
+package names
+
+// Hook, when set, receives one event per step of the lazily initialised glyph
+// name tables.  It is called while the table mutex is held.  Verification
+// builds only (build tag "verif").
+var Hook func(event, table string)
+
+func hook(event, table string) {
+	if Hook != nil {
+		Hook(event, table)
+	}
+}
